@@ -229,7 +229,14 @@ def path_robot(c, job):
         self.extra = extra_obj
 
     body["createObjects"] = createObjects
-    Robot = type("Robot", (MagicRobot,), body)
+    if c.choose("robot_inheritance", 2):
+        # the robot class itself is inherited: class-level objects and createObjects live on the parent class
+        c.reach("inherited-robot")
+        parent_body = {k: v for k, v in body.items() if k != "__annotations__"}
+        Parent = type("ParentRobot", (MagicRobot,), parent_body)
+        Robot = type("Robot", (Parent,), {"__annotations__": body["__annotations__"]})
+    else:
+        Robot = type("Robot", (MagicRobot,), body)
     r = Robot()
     try:
         r.robotInit()
@@ -370,7 +377,7 @@ class C08(Spec):
 
     def reach_required(self, tier):
         return ["untouched", "prefixed-lookup", "absent", "mistyped", "delivered", "falsy-delivered", "ctor-private", "startup-fails", "startup-ok",
-                "inherited-annotations", "ctor-injection", "twins"]
+                "inherited-annotations", "ctor-injection", "twins", "inherited-robot"]
 
     def path_fn(self, c, job):
         return dict(unit=path_unit, ctor=path_ctor, robot=path_robot, twins=path_twins)[job["kind"]](c, job)
